@@ -30,6 +30,9 @@ rewritten before every build):
                        K.shiftLeft, K.shiftRight  (+ their _loopN / _afterN)
     signal_layout.go   (*SignalLayout).generateFilters      K.generateFilters (+ _loop1, _loop2, _after1)
     signal_layout.go   (*SignalLayout).Decode (the raw-value loop)   K.decodeRaw (+ _loop1, _after1)
+    signal_layout.go   signExtend                           K.signExtend
+    signal_layout.go   (*SignalLayout).decodeStandardSignal K.decodeStandard
+    signal_layout.go   (*SignalLayout).decodeEnumSignal     K.decodeEnum (+ _loop1, _after1)
 
 The theorems below state that each generated definition equals the hand-written model function
 that the properties C10 / C11 / C13 / C14 (and the layout properties through the enum / mux
@@ -198,6 +201,44 @@ A mutation of the loop (`<<=` ↔ `>>=`, the little-endian shift dropped, `consu
 the mask applied after the shift, `!=` ↔ `==` in the new-signal test, …) changes the generated
 text and breaks `K_decodeRaw` (self-test in the report of this kernel).
 
+The post-processing of a raw value (C03).  `signExtend`, `decodeStandardSignal` and
+`decodeEnumSignal` — the callees of the `decodeSignal` that `K.decodeRaw` leaves opaque — are
+translated (kernels_value.go) and proved equal to `Acme.Arith.signExtend` / `decodeStd` /
+`decodeEnum`, the functions C03 is proved about.
+  * `K_signExtend` holds for EVERY raw value and EVERY size (`Int`): no hypothesis.  `1<<(size-1)`
+    and `(1<<64 - 1) << size` are `uint64` shifts (`BitVec 64`; the constant `1<<64 - 1` is inlined
+    by value, = `BitVec.allOnes 64`).  C03's domain (1 ≤ size ≤ 64, raw < 2^size) is only needed
+    for the two's-complement reading (`K_signExtend_twos`).
+  * `decodeStandardSignal`: `sigType := stdSig.typ` is an alias (checked, dropped); the type is the
+    five reads `sigType.kind` (the Go constant VALUE: custom 0, flag 1, integer 2, decimal 3 —
+    `Acme.GenK.stdKindCode`), `.size`, `.signed`, `.scale`, `.offset`.  `scale` / `offset` are
+    `float64` in Go: by the translator's `exactFloat` convention they are the exact `Int` they hold,
+    and `int64(x)` / `uint64(x)` is `BitVec.ofInt 64 x`.  ASSUMPTION of that convention (a
+    hypothesis about the Go value, in the trusted base, not in the Lean theorem — the model makes the
+    same one: its `scaleI`, `offI` are "the int64 / uint64 conversions of the float fields"):
+    `scale` and `offset` are INTEGRAL floats with −2^63 ≤ x < 2^63 in the signed branch and
+    0 ≤ x < 2^64 in the unsigned branch (outside that range Go's float→integer conversion is
+    implementation-defined).  Go's wrap-around of the `int64` / `uint64` multiplication and
+    addition is kept (`BitVec 64` on both sides): `K_decodeStandard` needs no range hypothesis;
+    C03's `hrep` only enters the composed `K_decode_int_signed` / `_unsigned`.
+  * the result `&SignalDecoding{..}` is the record `GoSem.Decoded` (`rawValue`, `valueType` = the
+    string VALUE of the `SignalValueType` constant, `value`); `Signal` and `Unit` (with the locals
+    `unit`, `sigUnit`) are NOT translated.  `var value any` is `GoSem.Any`: the stored value tagged
+    with its dynamic type (`bool` / `int64` / `uint64` / `string`, hand-written in GenPrelude rather
+    than generated: the set of supported dynamic types is fixed by the translator).
+  * the decimal / custom branches are genuine float arithmetic and stay OUT: a `float64` stored in
+    `value` is the opaque marker `Any.float64` (its expression is not translated at all), which
+    `K_decodeStandard` relates to the model's `.float _` without comparing the value.
+  * `K_decodeStandard` is ONE equality for all four kinds through `Acme.GenK.decodedOf` (model value
+    ↦ the decoding that stands for it); `K_decodeStandard_int` reads the model's value back for the
+    flag / integer kinds through `Acme.GenK.valueOf` (tag and dynamic type must agree;
+    `valueOf_injective`).
+  * `decodeEnumSignal`: `sigEnum := enumSig.enum` is an alias; the MAP `sigEnum.values.entries()` is
+    `vals : List (String × Int)` (name, index) in an arbitrary order; `int(rawValue)` is
+    `raw.toInt` (reinterpreted, as in Go); `res.Value = enumVal.name; break` ↦ the first match.
+    `K_decodeEnum` holds for every list, i.e. every iteration order (with C04's unique indexes the
+    order is irrelevant: `K_decodeEnum_hit`).  No match ↦ `""`.
+
 Where a hypothesis appears (`v < 2 ^ 64`) it says that the argument is a Go `int`: the model
 functions are defined on all of `Int`, the Go function only on 64-bit values (for `v ≥ 2^64` the
 conversion `uint64(val)` of the source has no counterpart in the model).
@@ -208,6 +249,8 @@ import Acme.Proofs.GenKernelsEnum
 import Acme.Proofs.GenKernelsState
 import Acme.Proofs.GenKernelsBits
 import Acme.Proofs.GenKernelsDecode
+import Acme.Proofs.GenKernelsValue
+import Acme.Proofs.Arith
 
 namespace Acme.Props.GenKernels
 
@@ -457,6 +500,97 @@ example : K.decodeRaw (fun _ => true) [(⟨1, 0, 12⟩, false), (⟨2, 28, 4⟩,
     (K.generateFilters [(⟨1, 0, 12⟩, false), (⟨2, 28, 4⟩, false)]) [0x01#8, 0x08#8, 0#8] = .panic := by decide
 
 end Decode
+
+/-! ### the post-processing of a raw value (signal_layout.go, property C03) -/
+
+section Value
+open Acme.Arith Acme.GenK Acme.GoSem
+
+/-- signal_layout.go `signExtend` = `Acme.Arith.signExtend`, for every raw value and every size. -/
+theorem K_signExtend (raw : BitVec 64) (size : Int) :
+    K.signExtend raw size = Acme.Arith.signExtend raw size :=
+  signExtend_eq raw size
+
+/-- hence (C03_signExtend) the generated `signExtend` is two's complement on C03's domain -/
+theorem K_signExtend_twos (n : Nat) (h1 : 1 ≤ n) (h2 : n ≤ 64) (raw : BitVec 64)
+    (hr : raw.toNat < 2 ^ n) : (K.signExtend raw n).toInt = twos n raw.toNat := by
+  rw [signExtend_eq]
+  exact Acme.Arith.signExtend_twos n h1 h2 raw hr
+
+/-- signal_layout.go `decodeStandardSignal` = `Acme.Arith.decodeStd`, all four kinds, every size,
+    scale, offset and raw value (wrap-around included): the translated decoding is the one the
+    model's value stands for (`decodedOf`: `.flag b` ↦ ("flag", bool b), `.int v` ↦ ("int", int64 v),
+    `.uint v` ↦ ("uint", uint64 v), `.float _` ↦ ("float", the float64 MARKER — the float
+    arithmetic of the decimal / custom kinds is not translated)). -/
+theorem K_decodeStandard (k : Kind) (size : Int) (signed : Bool) (scale offset : Int) (sq oq : Rat)
+    (raw : BitVec 64) :
+    K.decodeStandard (stdKindCode k) size signed scale offset raw =
+      decodedOf raw (decodeStd k size signed scale offset sq oq raw) :=
+  decodeStandard_eq k size signed scale offset sq oq raw
+
+/-- flag and integer kinds: the model's value is read back from the translated decoding
+    (`valueOf`: the `ValueType` tag and the dynamic type of `Value` agree), `RawValue` is the raw. -/
+theorem K_decodeStandard_int (k : Kind) (hk : k = .flag ∨ k = .integer) (size : Int) (signed : Bool)
+    (scale offset : Int) (sq oq : Rat) (raw : BitVec 64) :
+    valueOf (K.decodeStandard (stdKindCode k) size signed scale offset raw) =
+      some (decodeStd k size signed scale offset sq oq raw) ∧
+    (K.decodeStandard (stdKindCode k) size signed scale offset raw).rawValue = raw :=
+  decodeStandard_int k hk size signed scale offset sq oq raw
+
+/-- C03 on the generated code, signed integer kind: twos(raw)·scale + offset when that is an int64 -/
+theorem K_decode_int_signed (n : Nat) (h1 : 1 ≤ n) (h2 : n ≤ 64) (raw : BitVec 64)
+    (hr : raw.toNat < 2 ^ n) (scale off : Int)
+    (hrep : -(2 ^ 63 : Int) ≤ twos n raw.toNat * scale + off ∧ twos n raw.toNat * scale + off < 2 ^ 63) :
+    valueOf (K.decodeStandard 2 n true scale off raw) = some (.int (twos n raw.toNat * scale + off)) := by
+  have h := (decodeStandard_int .integer (Or.inr rfl) n true scale off 0 0 raw).1
+  rw [Acme.Arith.int_signed n h1 h2 raw hr scale off 0 0 hrep] at h
+  exact h
+
+/-- unsigned integer kind: raw·scale + offset when that is a uint64 -/
+theorem K_decode_int_unsigned (n : Int) (raw : BitVec 64) (scale off : Int) (hs : 0 ≤ scale)
+    (ho : 0 ≤ off) (hrep : (raw.toNat : Int) * scale + off < 2 ^ 64) :
+    valueOf (K.decodeStandard 2 n false scale off raw) =
+      some (.uint ((raw.toNat : Int) * scale + off).toNat) := by
+  have h := (decodeStandard_int .integer (Or.inr rfl) n false scale off 0 0 raw).1
+  rw [Acme.Arith.int_unsigned n raw scale off 0 0 hs ho hrep] at h
+  exact h
+
+/-- flags decode to raw ≠ 0 -/
+theorem K_decode_flag (n : Int) (s : Bool) (scale off : Int) (raw : BitVec 64) :
+    valueOf (K.decodeStandard 1 n s scale off raw) = some (.flag (decide (raw.toNat ≠ 0))) := by
+  have h := (decodeStandard_int .flag (Or.inl rfl) n s scale off 0 0 raw).1
+  rw [Acme.Arith.flag_spec n s scale off 0 0 raw] at h
+  exact h
+
+/-- signal_layout.go `decodeEnumSignal` = `Acme.Arith.decodeEnum`: `Value` is the name of the first
+    listed value whose index equals `int(rawValue)`, `""` when there is none; for every list of
+    (name, index) pairs, i.e. for every iteration order of the Go map. -/
+theorem K_decodeEnum (vals : List (String × Int)) (raw : BitVec 64) :
+    K.decodeEnum vals raw = ⟨raw, "enum", .str (Acme.Arith.decodeEnum vals raw)⟩ :=
+  decodeEnum_eq vals raw
+
+/-- C03 on the generated code: with unique indexes the value with index = raw is found, in every
+    iteration order -/
+theorem K_decodeEnum_hit (values : List (String × Int)) (hu : (values.map (·.2)).Nodup)
+    (raw : BitVec 64) (hr : raw.toNat < 2 ^ 63) (name : String)
+    (hm : (name, (raw.toNat : Int)) ∈ values) :
+    K.decodeEnum values raw = ⟨raw, "enum", .str name⟩ := by
+  rw [decodeEnum_eq, Acme.Arith.enum_hit values hu raw hr name hm]
+
+theorem K_decodeEnum_miss (values : List (String × Int)) (raw : BitVec 64) (hr : raw.toNat < 2 ^ 63)
+    (hm : ∀ v ∈ values, v.2 ≠ (raw.toNat : Int)) :
+    K.decodeEnum values raw = ⟨raw, "enum", .str ""⟩ := by
+  rw [decodeEnum_eq, Acme.Arith.enum_miss values raw hr hm]
+
+/-! Non-vacuity -/
+example : (K.signExtend 0x9#64 4).toInt = -7 := by decide
+example : K.decodeStandard 2 4 true 2 1 0x9#64 = ⟨0x9#64, "int", .int64 (BitVec.ofInt 64 (-13))⟩ := by decide
+example : K.decodeStandard 2 4 false 2 1 0x9#64 = ⟨0x9#64, "uint", .uint64 19#64⟩ := by decide
+example : K.decodeStandard 3 4 false 2 1 0x9#64 = ⟨0x9#64, "float", .float64⟩ := by decide
+example : K.decodeEnum [("a", 1), ("b", 9)] 0x9#64 = ⟨0x9#64, "enum", .str "b"⟩ := by decide
+example : K.decodeEnum [("a", 1), ("b", 9)] 0x7#64 = ⟨0x7#64, "enum", .str ""⟩ := by decide
+
+end Value
 
 /-! ### enum and multiplexer sizes -/
 
